@@ -436,6 +436,13 @@ def make_case(rng, backend, tier):
                     if m["type"] == "histosys":
                         m["data"] = {"hi_data": [gen._round(v * 1.06, 4) for v in s["data"]], "lo_data": [gen._round(v * 0.95, 4) for v in s["data"]]}
                 s["modifiers"] = [m for m in s["modifiers"] if m["type"] not in ("staterror", "shapesys")]
+    # a shapesys bin without uncertainty: pyhf itself holds that gamma constant, so every conditional fit has two
+    # constants (the POI and that gamma)
+    if rng.random() < 0.35:
+        ss_mods = [m for c in spec["channels"] for s in c["samples"] for m in s["modifiers"] if m["type"] == "shapesys" and len(m["data"]) >= 2]
+        if ss_mods:
+            m = rng.choice(ss_mods)
+            m["data"][rng.randrange(len(m["data"]))] = 0.0
     model = pyhf.Model(copy.deepcopy(spec), poi_name="mu")
     pars = model.config.suggested_init()
     pars[model.config.poi_index] = rng.choice([0.0, 0.0, 0.5, 1.0])
@@ -479,6 +486,12 @@ def run_shard(shard):
         case = make_case(rng, p["backend"], shard.tier)
         free_norm = any(m["type"] == "normfactor" and m["name"] != "mu" for c in case["spec"]["channels"] for s_ in c["samples"] for m in s_["modifiers"])
         if p["configs"]:
+            # the optimiser comparison is the one place where two optimisers see the same conditional fits: give most of
+            # these models a gamma that pyhf itself holds constant (shapesys bin without uncertainty), i.e. two constants
+            ss_mods = [m for c in case["spec"]["channels"] for s_ in c["samples"] for m in s_["modifiers"] if m["type"] == "shapesys" and len(m["data"]) >= 2 and 0.0 not in m["data"]]
+            if ss_mods and rng.random() < 0.7:
+                m = rng.choice(ss_mods)
+                m["data"][rng.randrange(len(m["data"]))] = 0.0
             # (models with a free background normfactor are excluded from the optimiser comparison: MINUIT at
             # tolerance 1e-3 stopped 1-2 units of 2NLL above SciPy's fixed-POI optimum on such a model, an optimiser
             # weakness on ill-conditioned fits rather than a property of pyhf's likelihood; backends are still compared)
